@@ -5,10 +5,12 @@ package main
 import (
 	"context"
 	"encoding/json"
+	"errors"
 	"fmt"
 	"io"
 	"net/http"
 	"strings"
+	"time"
 
 	jose "github.com/go-jose/go-jose/v4"
 
@@ -26,9 +28,19 @@ type stub struct {
 	status int
 	body   []byte
 	ctype  string
+	// next: answers of the following requests (device flow: first the device authorization, then the token endpoint)
+	next  *stub
+	calls int
 }
 
 func (s *stub) RoundTrip(req *http.Request) (*http.Response, error) {
+	if err := req.Context().Err(); err != nil { // like a real transport: nothing is sent under an ended context
+		return nil, err
+	}
+	s.calls++
+	if s.next != nil && s.calls > 1 {
+		return s.next.RoundTrip(req)
+	}
 	h := http.Header{}
 	if s.ctype != "" {
 		h.Set("Content-Type", s.ctype)
@@ -220,4 +232,113 @@ func clientCases(w *emit.Writer, g *gen, n int) {
 			Human:    map[string]any{"helper": h.name, "status": status, "body": short(body), "expect": expect, "panic": p, "err": fmt.Sprint(err)},
 		})
 	}
+}
+
+// ---- device flow: the poll interval comes from the provider's answer (IDevice) ----
+
+const pollUnit = 20 * time.Millisecond // stands for the second of the real flow
+
+func (g *gen) answer(sc []field, okDoc *J) (status int, body []byte, term string, doc *J) {
+	r := g.r
+	status = 200
+	if r.Chance(1, 4) {
+		status = drv.Pick(r, []int{400, 400, 401, 500})
+	}
+	switch c := r.IntN(10); {
+	case c == 0:
+		body = []byte(drv.Pick(r, truncated))
+		return status, body, "BInvalid", nil
+	case c == 1:
+		doc = g.doc(sc)
+	case status != 200:
+		doc = jobj(kv{"error", jstr(drv.Pick(r, []string{"authorization_pending", "slow_down", "access_denied", "expired_token", "invalid_grant"}))})
+	default:
+		doc = okDoc
+	}
+	return status, doc.Bytes(r, true), emit.Ctor("BJson", doc.Coq()), doc
+}
+
+func deviceCases(w *emit.Writer, g *gen, n int) (ambiguous int) {
+	r := g.r
+	for i := 0; i < n; i++ {
+		// device authorization answer: interval absent / null / 0 / negative / small / huge / wrongly typed
+		m := []kv{{"device_code", jstr("dc")}, {"user_code", jstr("ABCD-EFGH")}, {"verification_uri", jstr(opfix.Issuer + "/device")}}
+		if !r.Chance(1, 4) {
+			m = append(m, kv{"expires_in", drv.Pick(r, []*J{jint(300), jint(0), jint(-1), jbig("9223372036854775807"), jnull()})})
+		}
+		iv := drv.Pick(r, []*J{nil, nil, jint(0), jint(-1), jint(-5), jint(1), jint(1), jint(2), jint(100000), jnull(), jstr("5"), jfrac("1.5", 1)})
+		if i < 3 {
+			iv = []*J{nil, jint(0), jint(-1)}[i]
+		}
+		if iv != nil {
+			m = append(m, kv{"interval", iv})
+			if r.Chance(1, 8) {
+				m = append(m, kv{"interval", drv.Pick(r, []*J{jnull(), jint(0), jint(1)})})
+			}
+		}
+		okDev := jobj(m...)
+		ds, db, dterm, ddoc := g.answer(scDeviceAuthz, okDev)
+		if i < 3 {
+			ds, db, dterm, ddoc = 200, okDev.Bytes(r, false), emit.Ctor("BJson", okDev.Coq()), okDev
+		}
+		okTok := jobj(kv{"access_token", jstr("at")}, kv{"token_type", jstr("Bearer")}, kv{"expires_in", drv.Pick(r, []*J{jint(300), jint(0), jbig("18446744073709551615"), jnull()})})
+		ts, tb, tterm, tdoc := g.answer(scTokenResponse, okTok)
+		sb := &stub{status: ds, body: db, next: &stub{status: ts, body: tb}}
+		cl := caller{&http.Client{Transport: sb}}
+		var err error
+		var interval int
+		done := make(chan string, 1)
+		go func() {
+			done <- drv.Catch(func() {
+				ctx, cancel := context.WithTimeout(context.Background(), 300*time.Millisecond)
+				defer cancel()
+				var resp *oidc.DeviceAuthorizationResponse
+				resp, err = client.CallDeviceAuthorizationEndpoint(ctx, &oidc.ClientCredentialsRequest{ClientID: "web", ClientSecret: "s"}, cl, nil)
+				if err != nil {
+					return
+				}
+				interval = resp.Interval
+				_, err = client.PollDeviceAccessTokenEndpoint(ctx, time.Duration(resp.Interval)*pollUnit, &client.DeviceAccessTokenRequest{
+					ClientCredentialsRequest: &oidc.ClientCredentialsRequest{ClientID: "web", ClientSecret: "s"},
+					DeviceAccessTokenRequest: oidc.DeviceAccessTokenRequest{DeviceCode: resp.DeviceCode}}, cl)
+			})
+		}()
+		var p string
+		select {
+		case p = <-done:
+		case <-time.After(10 * time.Second):
+			p = "hang: the helper did not return within 10 s of a 300 ms deadline"
+		}
+		obs := "CRetOk"
+		switch {
+		case p != "":
+			obs = "CPanic"
+		case err != nil:
+			obs = "CRetErr"
+		}
+		if interval > 2 && interval < 100 { // would wait for a sizeable part of the deadline: not a modelled class
+			continue
+		}
+		if p == "" && ts == 200 && (interval == 1 || interval == 2) && errors.Is(err, context.DeadlineExceeded) {
+			ambiguous++ // a scheduling stall longer than the poll unit: the outcome says nothing about the library
+			continue
+		}
+		tags := []string{"kind=device", fmt.Sprintf("dev_status=%d", ds), fmt.Sprintf("tok_status=%d", ts)}
+		ivt := "absent"
+		if iv != nil {
+			ivt = short(iv.Bytes(r, false))
+		}
+		tags = append(tags, "interval="+ivt)
+		if i < 3 {
+			tags = append(tags, "f=device-interval")
+		}
+		w.Add(emit.Case{
+			Input: emit.Ctor("IDevice", fmt.Sprintf("{| a_ok := %s; a_body := %s |}", emit.Bool(ds == 200), dterm),
+				fmt.Sprintf("{| a_ok := %s; a_body := %s |}", emit.Bool(ts == 200), tterm), Tables(r, ddoc, tdoc)),
+			Observed: emit.Ctor("OClient", obs),
+			Tags:     tags,
+			Human:    map[string]any{"device_answer": short(db), "token_answer": short(tb), "panic": p, "err": fmt.Sprint(err), "interval": interval},
+		})
+	}
+	return ambiguous
 }
